@@ -197,7 +197,14 @@ func Observe(n *Node, w *world) (*Observation, error) {
 		c := bc.GetContractState(hh)
 		if c != nil {
 			// the price of a read-only call as the node would charge it now (execution fee factor, whitelisted fees)
-			cs = append(cs, fmt.Sprintf("k:%s:id=%d:upd=%d:nef=%d:get=%s:put=%s", hh.StringLE()[:8], c.ID, c.UpdateCounter, c.NEF.Checksum,
+			// the manifest as the node holds it, in its canonical (stack item) form: the JSON form distinguishes a nil
+			// parameter list from an empty one, which differs between a manifest parsed at deployment and one read
+			// back from storage and means nothing
+			var mj []byte
+			if it, err := c.Manifest.ToStackItem(); err == nil {
+				mj, _ = stackitem.Serialize(it)
+			}
+			cs = append(cs, fmt.Sprintf("k:%s:id=%d:upd=%d:nef=%d:man=%s:get=%s:put=%s", hh.StringLE()[:8], c.ID, c.UpdateCounter, c.NEF.Checksum, sum(mj)[:12],
 				invokePrice(n, callScript(hh, "get", []byte{1})), invokePrice(n, callScript(hh, "put", []byte{1}, []byte{2}))))
 		}
 	}
